@@ -34,12 +34,18 @@ func VerifC06Tick() {
 	vAssume(alpha("updateStateIR", 2, vKey("n3"))) // Offline: removed
 	vSign(n1, true)
 	vAssume(alpha("addNode", []any{[]any{"addr"}, nil, vKey("n1"), 1}))
-	vAssume(alpha("subscribeForNewEpoch", vContractHash("probe1")))
-	vAssume(alpha("subscribeForNewEpoch", vContractHash("probe2")))
+	// param 1: the order in which the two probes subscribe (0: probe1 first, 1: probe2 first). Subscribers are
+	// called in SUBSCRIPTION order; run both ways, one of the two contradicts the order of the contract hashes
+	firstP, secondP := "probe1", "probe2"
+	if vParam(1) == 1 {
+		firstP, secondP = "probe2", "probe1"
+	}
+	vAssume(alpha("subscribeForNewEpoch", vContractHash(firstP)))
+	vAssume(alpha("subscribeForNewEpoch", vContractHash(secondP)))
 	// a second subscription of a subscribed contract is accepted and has no effect at all: no storage
 	// change and no notification announcing a subscriber that is not new
 	vSign(vAlphabetAcct(), true)
-	again, _ := vInvoke("netmap", "subscribeForNewEpoch", vContractHash("probe1"))
+	again, _ := vInvoke("netmap", "subscribeForNewEpoch", vContractHash(firstP))
 	vAssert(again && !vEffects(), "C06/subscribing-twice-has-no-additional-effect")
 	vAssume(again)
 	if c := vParam(0); c > 0 { // param 0: the number of kept snapshots (0: the default of 10). With 1 the list
@@ -87,7 +93,7 @@ func VerifC06Tick() {
 			vAssert(len(ln) == 1 && vEq(ln[0].Key, vKey("n1")), "C06/structured-map-is-the-structured-candidates")
 			vAssert(readInt("probe1", "last") == e && readInt("probe2", "last") == e, "C06/every-subscriber-called-with-the-epoch")
 			names := vEventNames()
-			vAssert(len(names) == 3 && names[0] == "probe1.Tick" && names[1] == "probe2.Tick" && names[2] == "netmap.NewEpoch",
+			vAssert(len(names) == 3 && names[0] == firstP+".Tick" && names[1] == secondP+".Tick" && names[2] == "netmap.NewEpoch",
 				"C06/each-subscriber-once-in-subscription-order")
 		} else {
 			vCover("tick-refused")
